@@ -51,6 +51,10 @@ void *bsearch(const void *key, const void *base,
 	char *left = (char *)base,
 		*right = (char *)base + size * nmemb,
 		*mid;
+	if (nmemb == 0) {
+		/* no element to compare with: base[0] does not exist */
+		return NULL;
+	}
 	while (left + size < right) {
 		mid = left + ((right - left) / (size << 1) * size);
 		if (compar(key, mid) < 0) {
